@@ -23,7 +23,7 @@ for pid in props:
         na.append({"property_id": pid, "reason": src['not_applicable'].get(pid, "check not built yet in this round (work in progress; see DESIGN.md §12)")})
 m = {
     "version": 1,
-    "setup_cmd": "cd /verif/engine && GOFLAGS=-mod=mod GOPROXY=off GOSUMDB=off GOTOOLCHAIN=local GOWORK=off go build -o /verif/bin/gosx ./cmd/gosx",
+    "setup_cmd": "cd /verif/engine && GOFLAGS=-mod=mod GOPROXY=off GOSUMDB=off GOTOOLCHAIN=local GOWORK=off go build -o /verif/bin/gosx ./cmd/gosx && /verif/selftest",
     "hooks": {
         "guard": "verif",
         "enable": "no source hooks: harnesses and the virtual clock are injected with go/packages overlays (packages.Config.Overlay / go test -overlay); nothing in /repo is guarded by the tag",
